@@ -278,6 +278,9 @@ type Analysis struct {
 	inScope func(*ssa.Function) bool
 	bySig   map[string][]*ssa.Function // address-taken functions by signature
 	boundOf map[*ssa.Function]bool     // candidate entered through a bound method value
+	// where bound method values of a method are made (x.m as a value): the receiver is Bindings[0]
+	boundSites   map[*ssa.Function][]*ssa.MakeClosure
+	boundEscapes map[*ssa.Function]bool // the wrapper is referenced other than through a MakeClosure
 	scratch map[string]bool            // scratch type (see scratchTypes) → verified call-local
 }
 
@@ -360,6 +363,8 @@ func Analyze(prog *core.Prog, inScope func(*ssa.Function) bool) *Analysis {
 	}
 	a.bySig = map[string][]*ssa.Function{}
 	a.boundOf = map[*ssa.Function]bool{}
+	a.boundSites = map[*ssa.Function][]*ssa.MakeClosure{}
+	a.boundEscapes = map[*ssa.Function]bool{}
 	for _, f := range fns {
 		for _, b := range f.Blocks {
 			for _, in := range b.Instrs {
@@ -390,6 +395,27 @@ func Analyze(prog *core.Prog, inScope func(*ssa.Function) bool) *Analysis {
 								if !dup {
 									a.bySig[k] = append(a.bySig[k], m)
 									a.boundOf[m] = true
+								}
+								// where the bound method value is made: the MakeClosure itself (operand Fn) or a use of
+								// its value as an operand of another instruction
+								var mc *ssa.MakeClosure
+								if x, ok := (*op).(*ssa.MakeClosure); ok {
+									mc = x
+								} else if x, ok := in.(*ssa.MakeClosure); ok {
+									mc = x
+								}
+								if mc != nil && len(mc.Bindings) > 0 {
+									known := false
+									for _, o := range a.boundSites[m] {
+										if o == mc {
+											known = true
+										}
+									}
+									if !known {
+										a.boundSites[m] = append(a.boundSites[m], mc)
+									}
+								} else {
+									a.boundEscapes[m] = true
 								}
 							}
 						}
@@ -659,6 +685,10 @@ func (a *Analysis) CalleeEffects(call ssa.CallInstruction) []CallEffect {
 					case Param:
 						if e.Index-shift >= 0 && e.Index-shift < len(args) {
 							out = append(out, CallEffect{e, args[e.Index-shift]})
+						} else if a.boundRecvIsCreatorLocal(g) {
+							// every bound method value of g was made over a receiver that is a local of the function that
+							// made it (c := newCollector(); walk(ops, c.visit)): the write is private to that activation
+							continue
 						} else {
 							out = append(out, CallEffect{Effect{Root: Unknown, Kind: e.Kind, Via: e.Via + " (bound receiver of a callback)", Pos: e.Pos}, nil})
 						}
@@ -974,6 +1004,20 @@ func (a *Analysis) step(f *ssa.Function) bool {
 
 // freeIsCreatorLocal: at every MakeClosure site of g the idx-th binding is
 // rooted in a local allocation of the creating function.
+// boundRecvIsCreatorLocal: all bound method values of g seen in the analysed packages bind a receiver whose root is a
+// local of the function that makes the value (same argument as freeIsCreatorLocal for captured variables).
+func (a *Analysis) boundRecvIsCreatorLocal(g *ssa.Function) bool {
+	if a.boundEscapes[g] || len(a.boundSites[g]) == 0 {
+		return false
+	}
+	for _, mc := range a.boundSites[g] {
+		if RootOf(mc.Bindings[0]).Kind != Local {
+			return false
+		}
+	}
+	return true
+}
+
 func (a *Analysis) freeIsCreatorLocal(g *ssa.Function, idx int, deep bool) bool {
 	p := g.Parent()
 	if p == nil {
